@@ -431,12 +431,11 @@ theorem inv_u2fFinish {s : State} (hs : Inv s) (c : Option Cookie) (a : Option A
               obtain ⟨ho, _, _⟩ := hok
               split
               · rename_i hk
-                refine inv_upgrade hs (sameAux_delChal s _) (auth_some hauth).1 (levelOK_u2f ?_)
-                have : (s.prof ck.sub).hasU2F = true := by
-                  cases h : (s.prof ck.sub).hasU2F with
-                  | true => rfl
-                  | false => exact absurd h hu2f
-                simp [events, tokenRegistered, hk, ho, this]
+                split
+                · rename_i hreg
+                  refine inv_upgrade hs (sameAux_delChal s _) (auth_some hauth).1 (levelOK_u2f ?_)
+                  simp [events, tokenRegistered, hk, ho, hreg]
+                · exact inv_reject hs _ _
               · rename_i hk
                 split
                 · rename_i hwa
